@@ -1054,6 +1054,11 @@ class _EvalBuilder(_Builder):
 
     def _fold_call(self, s: Sym) -> Sym:
         f, args, kw = s[1], s[2], s[3]
+        if not kw and len(args) == 1 and f[0] == "a" and f[2] == "join" and f[1][0] == "c" and isinstance(f[1][1], (bytes, str)) and len(f[1][1]) == 0 \
+                and args[0][0] in ("list", "tuple") and args[0][1] and not any(x[0] == "star" for x in args[0][1]):
+            # b"".join([a, b, c]) is a + b + c
+            items = args[0][1]
+            return items[0] if len(items) == 1 else simplify(OP("+", *items))
         if not kw and len(args) == 1 and dotted(f) in ("os.path.commonprefix", "commonprefix"):
             # the longest common leading run of constant sequences (a pure standard-library function)
             seqs = None
@@ -1345,6 +1350,8 @@ def _pure_reads(fn: ast.AST, nm: str) -> List[ast.AST]:
     for n in ast.walk(fn):
         if isinstance(n, ast.Call) and isinstance(n.func, ast.Name) and n.func.id in ("bool", "len", "tuple", "sorted", "reversed", "enumerate", "any", "all", "sum", "min", "max") \
                 and not n.keywords:
+            out += [a for a in n.args if isinstance(a, ast.Name) and a.id == nm]
+        elif isinstance(n, ast.Call) and isinstance(n.func, ast.Attribute) and n.func.attr == "join" and isinstance(n.func.value, ast.Constant) and not n.keywords:
             out += [a for a in n.args if isinstance(a, ast.Name) and a.id == nm]
         elif isinstance(n, ast.UnaryOp) and isinstance(n.op, ast.Not) and isinstance(n.operand, ast.Name) and n.operand.id == nm:
             out.append(n.operand)
